@@ -129,6 +129,19 @@ theorem upd_same {α : Type} (f : Nat → α) (i : Nat) (v : α) : upd f i v i =
 theorem upd_other {α : Type} (f : Nat → α) (i j : Nat) (v : α) (h : j ≠ i) : upd f i v j = f j := by
   simp [upd, h]
 
+/-- two messages of one mailbox with the same id are the same message -/
+theorem msg_eq_of_nodup {l : List (Msg Req)} (hnd : (l.map (·.id)).Nodup) {m m' : Msg Req}
+    (hm : m ∈ l) (hm' : m' ∈ l) (he : m.id = m'.id) : m = m' := by
+  induction l with
+  | nil => cases hm
+  | cons x l ih =>
+    rw [List.map_cons, List.nodup_cons] at hnd
+    rcases List.mem_cons.mp hm with e | e <;> rcases List.mem_cons.mp hm' with e' | e'
+    · rw [e, e']
+    · subst e; exact absurd (List.mem_map.mpr ⟨m', e', he.symm⟩) hnd.1
+    · subst e'; exact absurd (List.mem_map.mpr ⟨m, e, he⟩) hnd.1
+    · exact ih hnd.2 e e'
+
 /-- what ties the concrete state (mailboxes, clients, slots, pool) to the replayed log -/
 structure Inv (s : Sys σ Req Resp) (r : RState σ Req Resp) : Prop where
   rep : replay step (initR s0) s.log = some r
@@ -137,7 +150,7 @@ structure Inv (s : Sys σ Req Resp) (r : RState σ Req Resp) : Prop where
   wfp : WF r.pend
   wfd : WF r.done
   /-- a waiting client: its request is either still in the mailbox of its shard (slot empty), or
-      has been executed, nobody else's message mentions it, and its slot holds exactly the
+      has been executed, no message mentions it any more, and its slot holds exactly the
       response computed for it -/
   cl : ∀ c id req sid, s.client c = .waiting id req sid →
     id < s.nextId ∧ sid < s.fresh ∧ sid ∉ s.pool ∧ (.inv id req) ∈ s.log ∧
@@ -146,10 +159,18 @@ structure Inv (s : Sys σ Req Resp) (r : RState σ Req Resp) : Prop where
       ∃ resp, s.slot sid = some resp ∧ get r.done id = some resp ∧ (.lin id resp) ∈ s.log))
   distinct : ∀ c c' id req sid id' req' sid', c ≠ c' →
     s.client c = .waiting id req sid → s.client c' = .waiting id' req' sid' → id ≠ id' ∧ sid ≠ sid'
-  /-- every message in flight belongs to a waiting client and sits in the right mailbox -/
-  msg : ∀ i m, m ∈ s.mail i → ∃ c, s.client c = .waiting m.id m.req m.slot ∧ route m.req = i
+  /-- every message in flight — whether its client still waits or has ABANDONED it — sits in the
+      right mailbox, is a pending operation of the log, and references a slot that is allocated
+      and NOT in the pool -/
+  msg : ∀ i m, m ∈ s.mail i →
+    route m.req = i ∧ m.id < s.nextId ∧ m.slot < s.fresh ∧ m.slot ∉ s.pool ∧
+    get r.pend m.id = some m.req
+  /-- a message that references a waiting client's slot is that client's own request -/
+  owner : ∀ c id req sid i m, s.client c = .waiting id req sid → m ∈ s.mail i → m.slot = sid →
+    m.id = id
+  cross : ∀ i j m m', m ∈ s.mail i → m' ∈ s.mail j → m.id = m'.id → i = j
   nodup : ∀ i, ((s.mail i).map (·.id)).Nodup
-  /-- a slot in the pool (or never allocated) is empty and referenced by nobody -/
+  /-- a slot in the pool (or never allocated) is empty -/
   slots_free : ∀ sid, (sid ∈ s.pool ∨ s.fresh ≤ sid) → s.slot sid = none
   pool_nodup : s.pool.Nodup
   pool_lt : ∀ sid ∈ s.pool, sid < s.fresh
@@ -163,23 +184,12 @@ theorem inv_init (pool : Nat) : Inv step route s0 (Sys.init s0 pool) (initR s0) 
   cl := by intro c id req sid h; cases h
   distinct := by intro c c' id req sid id' req' sid' _ h; cases h
   msg := by intro i m h; cases h
+  owner := by intro c id req sid i m h; cases h
+  cross := by intro i j m m' h; cases h
   nodup := by intro i; exact List.Pairwise.nil
   slots_free := by intro sid _; rfl
   pool_nodup := List.nodup_range
   pool_lt := by intro sid h; exact List.mem_range.mp h
-
-/-- a message in flight belongs to exactly one client -/
-theorem Inv.msg_id_client {s : Sys σ Req Resp} {r : RState σ Req Resp} (h : Inv step route s0 s r)
-    {i j : Nat} {m m' : Msg Req} (hm : m ∈ s.mail i) (hm' : m' ∈ s.mail j) (hid : m.id = m'.id) :
-    i = j := by
-  obtain ⟨c, hc, hr⟩ := h.msg i m hm
-  obtain ⟨c', hc', hr'⟩ := h.msg j m' hm'
-  by_cases hcc : c = c'
-  · subst hcc
-    rw [hc] at hc'
-    injection hc' with _ hreq _
-    rw [← hr, ← hr', hreq]
-  · exact absurd hid (h.distinct c c' _ _ _ _ _ _ hcc hc hc').1
 
 /-- invocation: a slot that is free (popped from the pool, or never allocated) is handed out -/
 theorem inv_invoke {s : Sys σ Req Resp} {r : RState σ Req Resp} (h : Inv step route s0 s r)
@@ -195,7 +205,7 @@ theorem inv_invoke {s : Sys σ Req Resp} {r : RState σ Req Resp} (h : Inv step 
         nextId := s.nextId + 1
         log := s.log ++ [.inv s.nextId req] }
       { r with pend := insert s.nextId req r.pend, next := s.nextId + 1 } := by
-  -- a waiting client's slot is neither in the pool nor unallocated
+  -- the slot handed out is referenced by no waiting client and no message in flight
   have hslot_ne : ∀ c' id' req' sid', s.client c' = .waiting id' req' sid' → sid' ≠ sid := by
     intro c' id' req' sid' hw he
     obtain ⟨_, hlt, hnp, _⟩ := h.cl c' id' req' sid' hw
@@ -203,9 +213,28 @@ theorem inv_invoke {s : Sys σ Req Resp} {r : RState σ Req Resp} (h : Inv step 
     rcases h5 with hp | hf
     · exact hnp hp
     · omega
+  have hmsg_ne : ∀ i m, m ∈ s.mail i → m.slot ≠ sid := by
+    intro i m hm he
+    obtain ⟨_, _, hlt, hnp, _⟩ := h.msg i m hm
+    rw [he] at hlt hnp
+    rcases h5 with hp | hf
+    · exact hnp hp
+    · omega
+  -- membership in the new mailboxes
+  have hmem : ∀ i m, m ∈ upd s.mail (route req) (s.mail (route req) ++ [⟨s.nextId, sid, req⟩]) i →
+      m ∈ s.mail i ∨ (m = ⟨s.nextId, sid, req⟩ ∧ i = route req) := by
+    intro i m hm
+    by_cases hi : i = route req
+    · subst hi
+      rw [upd_same] at hm
+      rcases List.mem_append.mp hm with e | e
+      · exact Or.inl e
+      · exact Or.inr ⟨by simpa using e, rfl⟩
+    · rw [upd_other _ _ _ _ hi] at hm; exact Or.inl hm
   refine
     { rep := ?_, st := h.st, next := rfl, wfp := wf_insert h.wfp, wfd := h.wfd, cl := ?_,
-      distinct := ?_, msg := ?_, nodup := ?_, slots_free := ?_, pool_nodup := h6, pool_lt := ?_ }
+      distinct := ?_, msg := ?_, owner := ?_, cross := ?_, nodup := ?_, slots_free := ?_,
+      pool_nodup := h6, pool_lt := ?_ }
   · show replay step (initR s0) (s.log ++ [.inv s.nextId req]) = _
     rw [replay_snoc step _ _ _ _ h.rep]
     show (if r.next ≤ s.nextId then _ else none) = _
@@ -214,95 +243,102 @@ theorem inv_invoke {s : Sys σ Req Resp} {r : RState σ Req Resp} (h : Inv step 
     dsimp only at hw ⊢
     by_cases hcc : c' = c
     · subst hcc
-      rw [show (upd s.client c' (CState.waiting s.nextId req sid)) c' = _ from upd_same _ _ _] at hw
+      rw [upd_same] at hw
       injection hw with e1 e2 e3
       subst e1; subst e2; subst e3
       refine ⟨Nat.lt_succ_self _, h1, h2, by simp, Or.inl ⟨?_, ?_, ?_⟩⟩
-      · show _ ∈ upd s.mail (route req) _ (route req)
-        rw [upd_same]; simp
+      · rw [upd_same]; simp
       · exact h.slots_free _ h5
       · show get (insert s.nextId req r.pend) s.nextId = _
         rw [get_insert]; simp
-    · rw [show (upd s.client c (CState.waiting s.nextId req sid)) c' = s.client c' from
-        upd_other _ _ _ _ hcc] at hw
+    · rw [upd_other _ _ _ _ hcc] at hw
       obtain ⟨a1, a2, a3, a4, a5⟩ := h.cl c' id' req' sid' hw
       refine ⟨Nat.lt_succ_of_lt a1, Nat.lt_of_lt_of_le a2 h4, fun hx => a3 (h3 _ hx),
         by simp [a4], ?_⟩
       rcases a5 with ⟨b1, b2, b3⟩ | ⟨b1, resp, b2, b3, b4⟩
       · refine Or.inl ⟨?_, b2, ?_⟩
-        · show _ ∈ upd s.mail (route req) _ (route req')
-          by_cases hr : route req' = route req
+        · by_cases hr : route req' = route req
           · rw [hr, upd_same]; rw [hr] at b1; simp [b1]
           · rw [upd_other _ _ _ _ hr]; exact b1
         · show get (insert s.nextId req r.pend) id' = _
           rw [get_insert, if_neg (by omega)]; exact b3
       · refine Or.inr ⟨?_, resp, b2, b3, by simp [b4]⟩
         intro i m hm
-        by_cases hi : i = route req
-        · subst hi
-          rw [show upd s.mail (route req) _ (route req) = _ from upd_same _ _ _] at hm
-          rcases List.mem_append.mp hm with hm | hm
-          · exact b1 _ m hm
-          · have : m = ⟨s.nextId, sid, req⟩ := by simpa using hm
-            subst this; show s.nextId ≠ id'; omega
-        · rw [show upd s.mail (route req) _ i = s.mail i from upd_other _ _ _ _ hi] at hm
-          exact b1 i m hm
+        rcases hmem i m hm with e | ⟨e, _⟩
+        · exact b1 i m e
+        · subst e; show s.nextId ≠ id'; omega
   · intro c1 c2 id1 req1 sid1 id2 req2 sid2 hne hw1 hw2
     dsimp only at hw1 hw2
     by_cases e1 : c1 = c
     · subst e1
       have e2 : c2 ≠ c1 := fun e => hne e.symm
-      rw [show (upd s.client c1 (CState.waiting s.nextId req sid)) c1 = _ from upd_same _ _ _] at hw1
-      rw [show (upd s.client c1 (CState.waiting s.nextId req sid)) c2 = s.client c2 from
-        upd_other _ _ _ _ e2] at hw2
+      rw [upd_same] at hw1
+      rw [upd_other _ _ _ _ e2] at hw2
       injection hw1 with a1 a2 a3
       subst a1; subst a3
       have := (h.cl c2 id2 req2 sid2 hw2).1
       exact ⟨by omega, fun e => hslot_ne c2 id2 req2 sid2 hw2 e.symm⟩
-    · rw [show (upd s.client c (CState.waiting s.nextId req sid)) c1 = s.client c1 from
-        upd_other _ _ _ _ e1] at hw1
+    · rw [upd_other _ _ _ _ e1] at hw1
       by_cases e2 : c2 = c
       · subst e2
-        rw [show (upd s.client c2 (CState.waiting s.nextId req sid)) c2 = _ from upd_same _ _ _] at hw2
+        rw [upd_same] at hw2
         injection hw2 with a1 a2 a3
         subst a1; subst a3
         have := (h.cl c1 id1 req1 sid1 hw1).1
         exact ⟨by omega, hslot_ne c1 id1 req1 sid1 hw1⟩
-      · rw [show (upd s.client c (CState.waiting s.nextId req sid)) c2 = s.client c2 from
-          upd_other _ _ _ _ e2] at hw2
+      · rw [upd_other _ _ _ _ e2] at hw2
         exact h.distinct c1 c2 _ _ _ _ _ _ hne hw1 hw2
   · intro i m hm
     dsimp only at hm ⊢
-    have hold : ∀ m, m ∈ s.mail i → ∃ c0, upd s.client c (CState.waiting s.nextId req sid) c0 =
-        .waiting m.id m.req m.slot ∧ route m.req = i := by
-      intro m hm
-      obtain ⟨c0, hc0, hr0⟩ := h.msg i m hm
-      have : c0 ≠ c := by intro e; subst e; rw [hc] at hc0; cases hc0
-      exact ⟨c0, by rw [upd_other _ _ _ _ this]; exact hc0, hr0⟩
-    by_cases hi : i = route req
-    · subst hi
-      rw [show upd s.mail (route req) _ (route req) = _ from upd_same _ _ _] at hm
-      rcases List.mem_append.mp hm with hm | hm
-      · exact hold m hm
-      · have : m = ⟨s.nextId, sid, req⟩ := by simpa using hm
-        subst this
-        exact ⟨c, upd_same _ _ _, rfl⟩
-    · rw [show upd s.mail (route req) _ i = s.mail i from upd_other _ _ _ _ hi] at hm
-      exact hold m hm
+    rcases hmem i m hm with e | ⟨e, ei⟩
+    · obtain ⟨g1, g2, g3, g4, g5⟩ := h.msg i m e
+      refine ⟨g1, Nat.lt_succ_of_lt g2, Nat.lt_of_lt_of_le g3 h4, fun hx => g4 (h3 _ hx), ?_⟩
+      show get (insert s.nextId req r.pend) m.id = _
+      rw [get_insert, if_neg (by omega)]; exact g5
+    · subst e; subst ei
+      refine ⟨rfl, Nat.lt_succ_self _, h1, h2, ?_⟩
+      show get (insert s.nextId req r.pend) s.nextId = _
+      rw [get_insert]; simp
+  · intro c' id' req' sid' i m hw hm hs
+    dsimp only at hw hm
+    by_cases hcc : c' = c
+    · subst hcc
+      rw [upd_same] at hw
+      injection hw with e1 e2 e3
+      subst e1; subst e3
+      rcases hmem i m hm with e | ⟨e, _⟩
+      · exact absurd hs (hmsg_ne i m e)
+      · subst e; rfl
+    · rw [upd_other _ _ _ _ hcc] at hw
+      rcases hmem i m hm with e | ⟨e, _⟩
+      · exact h.owner c' id' req' sid' i m hw e hs
+      · subst e
+        exact absurd hs.symm (hslot_ne c' id' req' sid' hw)
+  · intro i j m m' hm hm' he
+    dsimp only at hm hm'
+    rcases hmem i m hm with e | ⟨e, ei⟩ <;> rcases hmem j m' hm' with e' | ⟨e', ej⟩
+    · exact h.cross i j m m' e e' he
+    · subst e'
+      have := (h.msg i m e).2.1
+      have he' : m.id = s.nextId := he
+      omega
+    · subst e
+      have := (h.msg j m' e').2.1
+      have he' : s.nextId = m'.id := he
+      omega
+    · rw [ei, ej]
   · intro i
     dsimp only
     by_cases hi : i = route req
     · subst hi
-      rw [show upd s.mail (route req) _ (route req) = _ from upd_same _ _ _]
-      rw [List.map_append, List.nodup_append]
+      rw [upd_same, List.map_append, List.nodup_append]
       refine ⟨h.nodup _, by simp, ?_⟩
       intro a ha b hb
       have hb' : b = s.nextId := by simpa using hb
       obtain ⟨m, hm, rfl⟩ := List.mem_map.mp ha
-      obtain ⟨c0, hc0, _⟩ := h.msg _ m hm
-      have := (h.cl c0 _ _ _ hc0).1
+      have := (h.msg _ m hm).2.1
       omega
-    · rw [show upd s.mail (route req) _ i = s.mail i from upd_other _ _ _ _ hi]
+    · rw [upd_other _ _ _ _ hi]
       exact h.nodup i
   · intro x hx
     apply h.slots_free
@@ -312,7 +348,8 @@ theorem inv_invoke {s : Sys σ Req Resp} {r : RState σ Req Resp} (h : Inv step 
   · intro x hx
     exact Nat.lt_of_lt_of_le (h.pool_lt x (h3 x hx)) h4
 
-/-- a shard actor pops the head of its mailbox, runs the executor, answers into the message's slot -/
+/-- a shard actor pops the head of its mailbox, runs the executor, answers into the message's
+    slot — whether or not the client still waits -/
 theorem inv_exec {s : Sys σ Req Resp} {r : RState σ Req Resp} (h : Inv step route s0 s r)
     (i : Nat) (m : Msg Req) (rest : List (Msg Req)) (hm : s.mail i = m :: rest) :
     Inv step route s0
@@ -324,13 +361,7 @@ theorem inv_exec {s : Sys σ Req Resp} {r : RState σ Req Resp} (h : Inv step ro
       { r with s := (step s.st m.req).1, pend := erase m.id r.pend,
                done := insert m.id (step s.st m.req).2 r.done } := by
   have hmem : m ∈ s.mail i := by rw [hm]; simp
-  obtain ⟨c, hcw, hri⟩ := h.msg i m hmem
-  obtain ⟨c1, c2, c3, c4, c5⟩ := h.cl c _ _ _ hcw
-  -- the owner's request is still in flight
-  have hfl : s.slot m.slot = none ∧ get r.pend m.id = some m.req := by
-    rcases c5 with ⟨_, b2, b3⟩ | ⟨b1, _⟩
-    · exact ⟨b2, b3⟩
-    · exact absurd rfl (b1 i m hmem)
+  obtain ⟨g1, g2, g3, g4, g5⟩ := h.msg i m hmem
   -- no other message carries this id
   have hno : ∀ j m', m' ∈ upd s.mail i rest j → m'.id ≠ m.id := by
     intro j m' hm' he
@@ -341,7 +372,7 @@ theorem inv_exec {s : Sys σ Req Resp} {r : RState σ Req Resp} (h : Inv step ro
       rw [hm, List.map_cons, List.nodup_cons] at hnd
       exact hnd.1 (List.mem_map.mpr ⟨m', hm', he⟩)
     · rw [upd_other _ _ _ _ hj] at hm'
-      exact hj (h.msg_id_client step route s0 hm' hmem he)
+      exact hj (h.cross j i m' m hm' hmem he)
   have hsub : ∀ j m', m' ∈ upd s.mail i rest j → m' ∈ s.mail j := by
     intro j m' hm'
     by_cases hj : j = i
@@ -349,27 +380,32 @@ theorem inv_exec {s : Sys σ Req Resp} {r : RState σ Req Resp} (h : Inv step ro
     · rw [upd_other _ _ _ _ hj] at hm'; exact hm'
   refine
     { rep := ?_, st := rfl, next := h.next, wfp := wf_erase h.wfp, wfd := wf_insert h.wfd, cl := ?_,
-      distinct := h.distinct, msg := ?_, nodup := ?_, slots_free := ?_,
+      distinct := h.distinct, msg := ?_, owner := ?_, cross := ?_, nodup := ?_, slots_free := ?_,
       pool_nodup := h.pool_nodup, pool_lt := h.pool_lt }
   · show replay step (initR s0) (s.log ++ [.lin m.id (step s.st m.req).2]) = _
     rw [replay_snoc step _ _ _ _ h.rep]
     show (match get r.pend m.id with | none => none | some req => _) = _
-    rw [hfl.2]
+    rw [g5]
     show (if (step r.s m.req).2 = (step s.st m.req).2 then _ else none) = _
     rw [h.st, if_pos rfl]
   · intro c' id' req' sid' hw
     dsimp only at hw ⊢
     obtain ⟨a1, a2, a3, a4, a5⟩ := h.cl c' id' req' sid' hw
     refine ⟨a1, a2, a3, by simp [a4], ?_⟩
-    by_cases hcc : c' = c
-    · subst hcc
-      rw [hcw] at hw
-      injection hw with e1 e2 e3
-      subst e1; subst e2; subst e3
-      refine Or.inr ⟨fun j m' hm' => hno j m' hm', (step s.st m.req).2, upd_same _ _ _, ?_, by simp⟩
-      show get (insert m.id _ r.done) m.id = _
-      rw [get_insert]; simp
-    · obtain ⟨hid, hsid⟩ := h.distinct c' c _ _ _ _ _ _ hcc hw hcw
+    by_cases hid : id' = m.id
+    · -- the executed message is this client's own request
+      rcases a5 with ⟨b1, _, _⟩ | ⟨b1, _⟩
+      · have hi : route req' = i := h.cross _ _ _ _ b1 hmem hid
+        rw [hi] at b1
+        have hmm : (⟨id', sid', req'⟩ : Msg Req) = m := msg_eq_of_nodup (h.nodup i) b1 hmem hid
+        have e2 : sid' = m.slot := congrArg Msg.slot hmm
+        refine Or.inr ⟨fun j m' hm' => by rw [hid]; exact hno j m' hm', (step s.st m.req).2, ?_, ?_, ?_⟩
+        · rw [e2]; exact upd_same _ _ _
+        · show get (insert m.id _ r.done) id' = _
+          rw [get_insert, if_pos hid]
+        · rw [hid]; simp
+      · exact absurd hid.symm (b1 i m hmem)
+    · have hsid : sid' ≠ m.slot := fun e => hid (h.owner c' id' req' sid' i m hw hmem e.symm).symm
       rcases a5 with ⟨b1, b2, b3⟩ | ⟨b1, resp, b2, b3, b4⟩
       · refine Or.inl ⟨?_, ?_, ?_⟩
         · by_cases hj : route req' = i
@@ -387,7 +423,15 @@ theorem inv_exec {s : Sys σ Req Resp} {r : RState σ Req Resp} (h : Inv step ro
         · show get (insert m.id _ r.done) id' = _
           rw [get_insert, if_neg hid]; exact b3
   · intro j m' hm'
-    exact h.msg j m' (hsub j m' hm')
+    dsimp only at hm' ⊢
+    obtain ⟨k1, k2, k3, k4, k5⟩ := h.msg j m' (hsub j m' hm')
+    refine ⟨k1, k2, k3, k4, ?_⟩
+    show get (erase m.id r.pend) m'.id = _
+    rw [get_erase h.wfp, if_neg (hno j m' hm')]; exact k5
+  · intro c' id' req' sid' j m' hw hm' hs
+    exact h.owner c' id' req' sid' j m' hw (hsub j m' hm') hs
+  · intro j k m1 m2 h1 h2 he
+    exact h.cross j k m1 m2 (hsub j m1 h1) (hsub k m2 h2) he
   · intro j
     dsimp only
     by_cases hj : j = i
@@ -402,7 +446,7 @@ theorem inv_exec {s : Sys σ Req Resp} {r : RState σ Req Resp} (h : Inv step ro
     have : x ≠ m.slot := by
       intro e; subst e
       rcases hx with hx | hx
-      · exact c3 hx
+      · exact g4 hx
       · omega
     rw [upd_other _ _ _ _ this]
     exact h.slots_free x hx
@@ -426,9 +470,13 @@ theorem inv_ret {s : Sys σ Req Resp} {r : RState σ Req Resp} (h : Inv step rou
     rcases c5 with ⟨_, b2, _⟩ | ⟨b1, resp', b2, b3, _⟩
     · rw [hs] at b2; cases b2
     · rw [hs] at b2; injection b2 with e; subst e; exact ⟨b1, b3⟩
+  -- … so no message in flight references the slot that goes back to the pool
+  have hmsg_ne : ∀ i m, m ∈ s.mail i → m.slot ≠ sid := by
+    intro i m hm he
+    exact hex.1 i m hm (h.owner c id req sid i m hc hm he)
   refine
     { rep := ?_, st := h.st, next := h.next, wfp := h.wfp, wfd := wf_erase h.wfd, cl := ?_,
-      distinct := ?_, msg := ?_, nodup := h.nodup, slots_free := ?_,
+      distinct := ?_, msg := ?_, owner := ?_, cross := h.cross, nodup := h.nodup, slots_free := ?_,
       pool_nodup := hp2, pool_lt := ?_ }
   · show replay step (initR s0) (s.log ++ [.res id resp]) = _
     rw [replay_snoc step _ _ _ _ h.rep]
@@ -460,13 +508,17 @@ theorem inv_ret {s : Sys σ Req Resp} {r : RState σ Req Resp} (h : Inv step rou
     exact h.distinct x y _ _ _ _ _ _ hne hw1 hw2
   · intro i m hm
     dsimp only at hm ⊢
-    obtain ⟨c0, hc0, hr0⟩ := h.msg i m hm
-    have : c0 ≠ c := by
-      intro e; subst e
-      rw [hc] at hc0
-      injection hc0 with e1 _ _
-      exact hex.1 i m hm e1.symm
-    exact ⟨c0, by rw [upd_other _ _ _ _ this]; exact hc0, hr0⟩
+    obtain ⟨k1, k2, k3, k4, k5⟩ := h.msg i m hm
+    refine ⟨k1, k2, k3, ?_, k5⟩
+    intro hx
+    rcases hp1 _ hx with e | e
+    · exact k4 e
+    · exact hmsg_ne i m hm e
+  · intro c' id' req' sid' i m hw hm hs'
+    dsimp only at hw hm
+    have hcc : c' ≠ c := by intro e; subst e; rw [upd_same] at hw; cases hw
+    rw [upd_other _ _ _ _ hcc] at hw
+    exact h.owner c' id' req' sid' i m hw hm hs'
   · intro x hx
     dsimp only at hx ⊢
     by_cases e : x = sid
@@ -483,6 +535,25 @@ theorem inv_ret {s : Sys σ Req Resp} {r : RState σ Req Resp} (h : Inv step rou
     rcases hp1 _ hx with e | e
     · exact h.pool_lt x e
     · subst e; exact c2
+
+/-- the client gives up: its slot leaks (stays out of the pool), a queued message keeps it -/
+theorem inv_abandon {s : Sys σ Req Resp} {r : RState σ Req Resp} (h : Inv step route s0 s r)
+    (c : Nat) : Inv step route s0 { s with client := upd s.client c .idle } r := by
+  have hcl : ∀ c' id req sid, upd s.client c CState.idle c' = .waiting id req sid →
+      s.client c' = .waiting id req sid := by
+    intro c' id req sid hw
+    by_cases hcc : c' = c
+    · subst hcc; rw [upd_same] at hw; cases hw
+    · rw [upd_other _ _ _ _ hcc] at hw; exact hw
+  exact
+    { rep := h.rep, st := h.st, next := h.next, wfp := h.wfp, wfd := h.wfd
+      cl := fun c' id req sid hw => h.cl c' id req sid (hcl _ _ _ _ hw)
+      distinct := fun c1 c2 _ _ _ _ _ _ hne hw1 hw2 =>
+        h.distinct c1 c2 _ _ _ _ _ _ hne (hcl _ _ _ _ hw1) (hcl _ _ _ _ hw2)
+      msg := h.msg
+      owner := fun c' id req sid i m hw hm hs => h.owner c' id req sid i m (hcl _ _ _ _ hw) hm hs
+      cross := h.cross, nodup := h.nodup, slots_free := h.slots_free
+      pool_nodup := h.pool_nodup, pool_lt := h.pool_lt }
 
 /-- the invariant is inductive -/
 theorem inv_step {s s' : Sys σ Req Resp} {r : RState σ Req Resp} (h : Inv step route s0 s r)
@@ -515,6 +586,7 @@ theorem inv_step {s s' : Sys σ Req Resp} {r : RState σ Req Resp} (h : Inv step
   | retDrop c id req sid resp hc hsl =>
     exact ⟨_, inv_ret step route s0 h c id req sid resp s.pool hc hsl (fun x hx => Or.inl hx)
       h.pool_nodup⟩
+  | abandon c id req sid hc => exact ⟨r, inv_abandon step route s0 h c⟩
 
 theorem reach_inv {pool : Nat} {s : Sys σ Req Resp} (hr : Reach step route s0 pool s) :
     ∃ r, Inv step route s0 s r := by
